@@ -418,6 +418,11 @@ def r10_13(ctx: Ctx, rule: str = "R10.13") -> None:
         only_empty = any(pol and ((isinstance(cd, ast.Call) and attr_tail(cd) == "get" and norm(cd.func.value) == mem and cd.args and isinstance(cd.args[0], ast.Constant)
                                   and cd.args[0].value == "emptystream") or
                                  (isinstance(cd, ast.Subscript) and norm(cd.value) == mem and isinstance(cd.slice, ast.Constant) and cd.slice.value == "emptystream")) for cd, pol in facts)
+        # a member the vector has no bit for (no EmptyFile record at all) is NOT an empty file: the default of next() is False
+        dflt = isinstance(n.value, ast.Call) and len(n.value.args) > 1 and isinstance(n.value.args[1], ast.Constant) and n.value.args[1].value is False
+        ctx.check(dflt or not (isinstance(n.value, ast.Call) and dotted(n.value.func) == "next"), rule, f, n, "a member without an EmptyFile bit is not an empty file",
+                  f"`{norm(n)}`: when the archive has no EmptyFile record every member with an empty stream must come out with the flag clear (a directory): another default turns all "
+                  "directories of such an archive into empty files", construct="EmptyFile default")
         src_ok = isinstance(n.value, ast.Call) and dotted(n.value.func) == "next" and n.value.args and isinstance(n.value.args[0], ast.Name) and any(
             isinstance(v, ast.Call) and dotted(v.func) == "iter" and v.args and norm(v.args[0]).endswith("emptyfiles") for v in q.assigned_values(f, n.value.args[0].id))
         lp = q.enclosing_loops(f, n)
@@ -426,6 +431,32 @@ def r10_13(ctx: Ctx, rule: str = "R10.13") -> None:
                   f"`{norm(n)}` is not executed for exactly the members with an empty stream (under `{mem}.get('emptystream')` true, in a loop over all members, from an iterator over "
                   "`self.emptyfiles`): the bits of the EmptyFile vector land on the wrong members - empty files are listed and extracted as directories and directories as files",
                   construct="EmptyFile bits assignment")
+
+
+def r10_17(ctx: Ctx, rule: str = "R10.17") -> None:
+    """the EmptyFile vector is as long as the EmptyStream vector has bits SET: FilesInfo._read reads it with a count that starts at 0 and
+    grows by `<EmptyStream vector>.count(True)` in the EmptyStream arm.  Any other count (never increased, the clear bits counted) reads too
+    few or too many bits: empty files become directories or the record's bytes are misread."""
+    f = ctx.prog.func("archiveinfo", "FilesInfo._read")
+    rd = [c for c in q.calls(f) if attr_tail(c) == "read_boolean" and any(pol and "EMPTY_FILE" in norm(cd) for cd, pol in q.facts_at(f, c))]
+    ctx.floor(rule, len(rd), 1, "EmptyFile vector read in FilesInfo._read")
+    for c in rd:
+        cnt = c.args[1] if len(c.args) > 1 else None
+        ok = isinstance(cnt, ast.Name)
+        if ok:
+            name = cnt.id
+            inits = [n for n in walk(f.node) if isinstance(n, ast.Assign) and norm(n.targets[0]) == name]
+            incs = [n for n in walk(f.node) if isinstance(n, ast.AugAssign) and norm(n.target) == name]
+            ok = bool(inits) and all(isinstance(n.value, ast.Constant) and n.value.value == 0 and not q.enclosing_loops(f, n) for n in inits) and len(incs) >= 1
+            for n in incs:
+                v = n.value
+                good = isinstance(n.op, ast.Add) and isinstance(v, ast.Call) and attr_tail(v) == "count" and len(v.args) == 1 and isinstance(v.args[0], ast.Constant) and v.args[0].value is True \
+                    and isinstance(v.func.value, ast.Name) and any(isinstance(x, ast.Call) and attr_tail(x) == "read_boolean" for x in q.assigned_values(f, v.func.value.id)) \
+                    and any(pol and "EMPTY_STREAM" in norm(cd) for cd, pol in q.facts_at(f, n))
+                ok = ok and good
+        ctx.check(ok, rule, f, c, "the EmptyFile vector is read with the number of set EmptyStream bits",
+                  f"`{norm(c)}`: the count is not a local that starts at 0 and grows by `<EmptyStream bits>.count(True)` in the EmptyStream arm: the EmptyFile vector is read with the wrong "
+                  "length - archives of other writers list empty files as directories (or the other way round)", construct="EmptyFile vector length")
 
 
 def r10_15(ctx: Ctx, rule: str = "R10.15") -> None:
@@ -440,7 +471,7 @@ def r10_15(ctx: Ctx, rule: str = "R10.15") -> None:
     ctx.floor(rule, len(marks), 1, "EmptyFile record in FilesInfo.write")
     for mk in marks:
         vecs = [c for c in q.calls(f) if attr_tail(c) == "write_boolean" and len(c.args) > 1 and cfg.dominates(q.node_for(f, mk), q.node_for(f, c))
-                and q.facts_at(f, c) and [norm(a) for a, _ in q.facts_at(f, c)] == [norm(a) for a, _ in q.facts_at(f, mk)]]
+                and q.facts_at(f, c) and sorted((norm(a), p_) for a, p_ in q.facts_at(f, c)) == sorted((norm(a), p_) for a, p_ in q.facts_at(f, mk))]
         ctx.need(bool(vecs), "FilesInfo.write: no bit vector follows the EmptyFile id")
         v = vecs[0].args[1]
         vals = q.assigned_values(f, v.id) if isinstance(v, ast.Name) else [v]
@@ -541,6 +572,7 @@ def run(ctx: Ctx) -> None:
     r10_13(ctx)
     r10_15(ctx)
     r10_16(ctx)
+    r10_17(ctx)
     r10_12(ctx)
     r10_11(ctx)
     from . import c08 as _c08
